@@ -50,14 +50,14 @@ def instances(tier):
     # a call under the default (whole-curve) search range precedes the checked call in the same process: the verdicts of the
     # second call follow ITS search range
     for rng in ("lo", "hi"):
-        out.append({"name": f"reliability_a_{rng}_after_default_range_call", "func": "run_reliability", "kwargs": {"grid": "a", "rng": rng, "prior": True}})
-        out.append({"name": f"clarity_a_{rng}_after_default_range_call", "func": "run_clarity", "kwargs": {"grid": "a", "rng": rng, "prior": True}})
+        out.append({"name": f"reliability_c_{rng}_after_default_range_call", "func": "run_reliability", "kwargs": {"grid": "c", "rng": rng, "prior": True}})
+        out.append({"name": f"clarity_c_{rng}_after_default_range_call", "func": "run_clarity", "kwargs": {"grid": "c", "rng": rng, "prior": True}})
     out.append({"name": "monotone_reliability_ii", "func": "run_monotone", "kwargs": {"which": "ii"}})
     out.append({"name": "monotone_clarity_v", "func": "run_monotone", "kwargs": {"which": "v"}})
     return out
 
 
-def mk_inputs(ctx, grid, rng):
+def mk_inputs(ctx, grid, rng, two_peaks=False):
     g = GRIDS[grid]
     n = len(g)
     c = Sym.var("c", ctx, pos=True)
@@ -70,6 +70,14 @@ def mk_inputs(ctx, grid, rng):
         ctx.assume(y > 0)
         mean[j] = Sym(y, lg=u[j])
     std = np.array(s, dtype=object)
+    if two_peaks:
+        # BOUND of the 'earlier call' instances: the mean curve has maxima at samples 1 and 3 (one of them outside the search range)
+        ctx.assume(z3.And(u[1] > u[0], u[1] > u[2], u[3] > u[2], u[3] > u[4]))
+        # witnesses: clearly separated maxima, moderate standard deviations and scale (shaping only, not an assumption)
+        SHAPE[0] = [u[1] >= u[0] + qval(0.4), u[1] >= u[2] + qval(0.4), u[3] >= u[2] + qval(0.4), u[3] >= u[4] + qval(0.4), z3.Or(u[3] >= u[1] + qval(0.3), u[1] >= u[3] + qval(0.3))] + \
+                   [z3.And(x >= -1, x <= 2) for x in u] + [z3.And(x.e >= qval(0.05), x.e <= 1) for x in s] + [z3.And(c.e >= qval(0.125), c.e <= 8)]
+    else:
+        SHAPE[0] = None
     # instances of exp(u +- s) = exp(u) exp(+-s), exp(-s) exp(s) = 1 for the terms the code builds
     for j in range(n):
         up = (Sym(u[j]) + s[j]).exp()
@@ -87,8 +95,9 @@ def mk_inputs(ctx, grid, rng):
                 (a, ta), (b, tb) = fam[i], fam[k]
                 ctx.assume(z3.And(z3.Implies(a <= b, ta <= tb), z3.Implies(a < b, ta < tb), z3.Implies(a >= b, ta >= tb), z3.Implies(a > b, ta > tb)))
     # search ranges tied to the grid scale: the nearest-sample search in trim_curve is then decided without forking
-    lo = c * 1.4 if rng == "lo" else None
-    hi = c * (g[-1] - 0.6) if rng == "hi" else None
+    # lo drops the first sample (nearest sample to 1.6 c is g[1] = 1.5 c or 2 c), hi drops the last one (nearest to g[-2] + 0.4)
+    lo = c * 1.6 if rng == "lo" else None
+    hi = c * (g[-2] + 0.4) if rng == "hi" else None
     return c, frq, mean, std, s, (lo, hi)
 
 
@@ -117,19 +126,22 @@ def wit(c, frq, mean, std, sr, extra):
     return w
 
 
+SHAPE = [None]      # witness shaping for the instances that assume two maxima (set per path)
+
+
 def consistent(rep, ctx, label, verdict, holds_if_one, fails_if_zero, W, key, exclude=None):
     """verdict 1 => criterion (weak form) holds; verdict 0 => criterion (strong form) does not hold."""
     neg = z3.Not(holds_if_one) if verdict else fails_if_zero
     if exclude is not None:
         neg = z3.And(neg, z3.Not(exclude))
-    rep.prove(ctx, f"{label}: verdict {verdict} is the guideline's", neg, witness=W, key=key, real=True, timeout_ms=20000)
+    rep.prove(ctx, f"{label}: verdict {verdict} is the guideline's", neg, witness=W, key=key, real=True, timeout_ms=20000, shape=SHAPE[0])
 
 
 def run_reliability(rep, tier, grid, rng, prior=False):
     SE = L()["sesame"]
 
     def run(ctx):
-        c, frq, mean, std, s, sr = mk_inputs(ctx, grid, rng)
+        c, frq, mean, std, s, sr = mk_inputs(ctx, grid, rng, two_peaks=prior)
         lw = Sym.var("lw", ctx, pos=True)
         nw = Sym.var("nw", ctx, lo=1)
         if prior:
@@ -169,7 +181,7 @@ def run_clarity(rep, tier, grid, rng, prior=False):
     SE = L()["sesame"]
 
     def run(ctx):
-        c, frq, mean, std, s, sr = mk_inputs(ctx, grid, rng)
+        c, frq, mean, std, s, sr = mk_inputs(ctx, grid, rng, two_peaks=prior)
         fstd = Sym.var("fn_std", ctx, lo=0)
         if prior:
             outcome(lambda: SE.clarity(frq, mean, std, fstd, verbose=0))
